@@ -110,12 +110,42 @@ fn rand_segment(rng: &mut Rng, scale: f32) -> ActorSegment {
 fn rand_segment_m(rng: &mut Rng, scale: f32) -> (ActorSegment, nalgebra::Matrix4<f32>) {
     let loc = Vector3::new(rand_f32(rng, -scale, scale), rand_f32(rng, -scale, scale), rand_f32(rng, -scale, scale));
     let mut s = ActorSegment::new(loc);
-    let mut m = nalgebra::Translation3::from(loc).to_homogeneous();
+    // the segment's location and rotation as its caller's calls say (kept here, never read back)
+    let mut loc = loc;
+    let mut rot = Rotation3::identity();
     if rng.chance(3, 4) {
         let r = Rotation3::from_euler_angles(rand_f32(rng, -3.0, 3.0), rand_f32(rng, -1.4, 1.4), rand_f32(rng, -3.0, 3.0));
         s.set_rotation(r);
-        m = m * r.to_homogeneous();
+        rot = r;
     }
+    // every mutator of a segment, in any order, the last one being any of them
+    if rng.chance(1, 2) {
+        for _ in 0..(1 + rng.below(3)) {
+            match rng.below(4) {
+                0 => {
+                    let v = Vector3::new(rand_f32(rng, -scale, scale), rand_f32(rng, -scale, scale), rand_f32(rng, -scale, scale));
+                    s.set_location(v);
+                    loc = v;
+                }
+                1 => {
+                    let d = Vector3::new(rand_f32(rng, -scale, scale), rand_f32(rng, -scale, scale), rand_f32(rng, -scale, scale));
+                    s.add_location(d);
+                    loc += d;
+                }
+                2 => {
+                    let r = Rotation3::from_euler_angles(rand_f32(rng, -3.0, 3.0), rand_f32(rng, -1.4, 1.4), rand_f32(rng, -3.0, 3.0));
+                    s.set_rotation(r);
+                    rot = r;
+                }
+                _ => {
+                    let r = Rotation3::from_euler_angles(rand_f32(rng, -1.0, 1.0), rand_f32(rng, -1.0, 1.0), rand_f32(rng, -1.0, 1.0));
+                    s.add_rotation(r);
+                    rot = rot * r;
+                }
+            }
+        }
+    }
+    let m = nalgebra::Translation3::from(loc).to_homogeneous() * rot.to_homogeneous();
     (s, m)
 }
 
